@@ -43,7 +43,7 @@ Qed.
 
 (* ---------------------------------------------------------------------------------------------- *)
 (* field names *)
-Definition escf (c : char) : str := if N.eqb c c_bs || N.eqb c c_sq then [c_bs; c] else [c].
+Definition escf (c : char) : str := if N.eqb c c_bs || N.eqb c c_rq || N.eqb c c_sq then [c_bs; c] else [c].
 
 Lemma escape_from_escf ps f : forall i, pos_ok ps i f = true ->
   escape_from vb_f [c_bs] (fun j => existsb (Nat.eqb j) ps) i f = flat_map escf f.
@@ -51,23 +51,23 @@ Proof.
   induction f as [|c f IH]; intros i H; [reflexivity|].
   cbn [pos_ok] in H. apply andb_true_iff in H. destruct H as [Hc Hr].
   cbn [escape_from flat_map]. rewrite (IH _ Hr).
-  assert (E: esc_pos vb_f (fun j => existsb (Nat.eqb j) ps) i c = N.eqb c c_bs || N.eqb c c_sq).
+  assert (E: esc_pos vb_f (fun j => existsb (Nat.eqb j) ps) i c = N.eqb c c_bs || N.eqb c c_rq || N.eqb c c_sq).
   { unfold esc_pos. cbn [vb_f f_escape_quote f_quote andb].
-    destruct (N.eqb c c_bs) eqn:Eb.
+    destruct (N.eqb c c_bs || N.eqb c c_rq) eqn:Eb.
     - rewrite Hc. reflexivity.
     - destruct (N.eqb c c_sq) eqn:Es.
       + rewrite orb_true_r. reflexivity.
       + apply negb_true_iff in Hc. rewrite Hc. reflexivity. }
-  rewrite E. unfold escf. destruct (N.eqb c c_bs || N.eqb c c_sq); reflexivity.
+  rewrite E. unfold escf. destruct (N.eqb c c_bs || N.eqb c c_rq || N.eqb c c_sq); reflexivity.
 Qed.
 
 Lemma fq_read_escf f rest : fq_read (flat_map escf f ++ c_sq :: rest) = Some (f, rest).
 Proof.
   induction f as [|c f IH].
   - reflexivity.
-  - cbn [flat_map]. unfold escf at 1. destruct (N.eqb c c_bs || N.eqb c c_sq) eqn:E.
+  - cbn [flat_map]. unfold escf at 1. destruct (N.eqb c c_bs || N.eqb c c_rq || N.eqb c c_sq) eqn:E.
     + cbn [app fq_read]. change (N.eqb c_bs c_bs) with true. cbv iota. rewrite IH. reflexivity.
-    + apply orb_false_iff in E. destruct E as [Eb Es].
+    + apply orb_false_iff in E. destruct E as [E Es]. apply orb_false_iff in E. destruct E as [Eb Er].
       cbn [app fq_read]. rewrite Eb, Es, IH. reflexivity.
 Qed.
 
@@ -78,6 +78,8 @@ Proof.
   cbn [flat_map]. rewrite (IH Hf). unfold escf.
   assert (N.eqb c c_bs = false) as ->.
   { destruct (N.eqb c c_bs) eqn:E; auto. apply N.eqb_eq in E. subst. rewrite W_bs in Hc. discriminate. }
+  assert (N.eqb c c_rq = false) as ->.
+  { destruct (N.eqb c c_rq) eqn:E; auto. apply N.eqb_eq in E. subst. rewrite (W_special c_rq) in Hc; [discriminate|]. unfold specials; simpl; tauto. }
   assert (N.eqb c c_sq = false) as ->.
   { destruct (N.eqb c c_sq) eqn:E; auto. apply N.eqb_eq in E. subst. rewrite W_sq in Hc. discriminate. }
   reflexivity.
